@@ -1,6 +1,7 @@
 """C18 — the dependency listing names every file a compilation reads."""
 import json
 import os
+import re
 import core
 
 LEVEL = "model_checking"
@@ -15,7 +16,25 @@ def m_classic_embed_in_include(v, params):
             and any(len(forms) > 0 for (_, _, forms) in v["case"]["files"]))
 
 
-MATCHERS = {"classic_embed_in_include": m_classic_embed_in_include}
+def m_classic_dead_nested_missing(v, params):
+    # classic (no sigil) program in which a function nobody calls contains a (mod ...) expression that includes a file
+    # which exists nowhere on the search path: the classic compiler never looks at that function and compiles; the listing
+    # (modern front end, which parses every function) stops with "could not find <name> to include" and names nothing.
+    # The error must be truthful: no file of that name in any directory of the search path.
+    m = re.search(r"could not find (\S+) to include", v.get("listing_error") or "")
+    if not (v["kind"] == "read-but-not-listed" and v["case"]["sigil"] == "" and v["listed"] == [] and m):
+        return False
+    name = m.group(1)
+    on_path = any(d in v["case"]["path"] and n == name for (d, n, _) in v["case"]["files"])
+
+    # (the compilation succeeded although the file does not exist: only a function the classic compiler skipped can have
+    # asked for it -- such functions come from the nested forms of included files)
+    def has_nested(forms):
+        return any(f[0] == "nested" for f in forms)
+    return (not on_path) and any(has_nested(forms) for (_, _, forms) in v["case"]["files"])
+
+
+MATCHERS = {"classic_embed_in_include": m_classic_embed_in_include, "classic_dead_nested_missing": m_classic_dead_nested_missing}
 
 
 def _drive(acc, tier, vec):
@@ -62,7 +81,7 @@ def run(tier, acc):
 def replay(path):
     acc = core.Acc("C18", "quick", LEVEL)
     _drive(acc, "quick", None)
-    fresh = [v for v in acc.violations if not m_classic_embed_in_include(v, {})]
+    fresh = [v for v in acc.violations if not (m_classic_embed_in_include(v, {}) or m_classic_dead_nested_missing(v, {}))]
     if fresh:
         print(f"VIOLATION property=C18 replay={path}")
         print("  " + json.dumps(fresh[0])[:700])
